@@ -134,6 +134,11 @@ fn br_rule(id: &str, res: &str, key: &str) -> Arc<br::Rule> {
             r.strategy = br::BreakerStrategy::ErrorCount;
             r.threshold = 2.0;
         }
+        "e3" => {
+            // the same breaker as e2 with another threshold: its statistic can be taken over on a reload
+            r.strategy = br::BreakerStrategy::ErrorCount;
+            r.threshold = 3.0;
+        }
         "r5" => {
             r.strategy = br::BreakerStrategy::ErrorRatio;
             r.threshold = 0.5;
@@ -158,7 +163,7 @@ fn br_rule(id: &str, res: &str, key: &str) -> Arc<br::Rule> {
 }
 fn br_key(r: &br::Rule) -> String {
     match r.strategy {
-        br::BreakerStrategy::ErrorCount => if r.stat_interval_ms == 0 { "xivl".into() } else { "e2".into() },
+        br::BreakerStrategy::ErrorCount => if r.stat_interval_ms == 0 { "xivl".into() } else if r.threshold == 3.0 { "e3".into() } else { "e2".into() },
         br::BreakerStrategy::ErrorRatio => if r.threshold > 1.0 { "xthr".into() } else { "r5".into() },
         _ => "s5".into(),
     }
